@@ -259,6 +259,28 @@ theorem remove_state_removes_exactly_the_subtree (c : Chart) (n : Name) (ht : Ti
     · exact fun ⟨a, b, d⟩ => ⟨a, b, fun tg e => (one tg).1 (d tg e)⟩
     · exact fun ⟨a, b, d⟩ => ⟨a, b, fun tg e => (one tg).2 (d tg e)⟩
 
+/-- **Every well-formed statechart** (W1–W8, duplicate-free dictionaries) **meets the hypotheses of the
+    session theorems above**: its dictionaries are consistent, its parent relation is acyclic, and
+    `validate()` passes — so after any editing session that adds bare states only it is still a tree
+    with consistent dictionaries, anchored transitions and a passing `validate()`. -/
+theorem edited_well_formed_statecharts_stay_sound (c : Chart) (h : WFChart c) (hx : tidyExtraB c = true)
+    (ops : List EditOp) (hops : ∀ op ∈ ops, op.Bare) :
+    Tidy (c.applyEdits ops) ∧ (c.applyEdits ops).Ranked ∧ (c.applyEdits ops).validate = true ∧
+      (c.applyEdits ops).TransOK := by
+  obtain ⟨ht, hv⟩ := validate_of_wf c h hx
+  obtain ⟨r, hr, _⟩ := h.tree.rank
+  have hrk : c.Ranked := ⟨r, hr⟩
+  have htr : c.TransOK := by
+    intro t hm
+    obtain ⟨hs, htg⟩ := h.transitions t hm
+    refine ⟨?_, htg⟩
+    simp only [Chart.hasState, Option.isSome_iff_exists] at hs
+    obtain ⟨sd, hsd⟩ := hs
+    refine ⟨sd, hsd, ?_⟩
+    exact h.sourceKind t hm sd.kind (by simp [Chart.kindOf, hsd])
+  exact ⟨applyEdits_tidy ops c ht, (any_edit_session_keeps_the_tree ops c ht hrk).2,
+    applyEdits_validate ops c ht hv hops, applyEdits_transOK ops c htr⟩
+
 /-! non-vacuity: the example statechart of C02 is acyclic -/
 example : C02.exChart.Ranked := by
   obtain ⟨r, hr, _⟩ := (wfB_sound C02.exChart (by decide)).tree.rank
